@@ -219,11 +219,22 @@ func genHistSpec(p *histParams, c *Corpus, run int) *RunSpec {
 	if ro.Chance(1, 3) {
 		nOps = ro.Range(1, 6) // many short histories
 	}
+	// a themed run: most documents exercise one kind of per-document state, and the
+	// configuration has the extension (and often one of its options) that gives it meaning
+	themed := !c15 && rd.Split("theme").Chance(1, 2)
+	theme := pick(rd.Split("theme-pair"), leakPairs)
+	if themed {
+		rt := rd.Split("theme-cfg")
+		cfg = biasConfig(rt, biasConfig(rt, cfg, theme[0]), theme[1])
+	}
 	// documents
 	var docs [][]byte
 	nDocs := rd.Range(1, maxDocs)
 	for len(docs) < nDocs {
 		switch {
+		case themed && rd.Chance(2, 3):
+			a, b := genLeakPairOf(rd, theme)
+			docs = append(docs, a, b)
 		case c15 && rd.Chance(3, 4):
 			d := genHeadingDoc(rd)
 			docs = append(docs, d)
